@@ -1,6 +1,6 @@
 (* Props/C07.v -- property C07: INVITE client: non-2xx finals are ACKed by the transaction, 2xx left to the user *)
 From Coq Require Import List NArith.
-From EZK Require Import Model.Forms9 Proofs.Forms9 Model.C12o Proofs.C12o Lib.Bytes Gen.Tables Model.Tsx Model.C07 Proofs.C05 Proofs.C07.
+From EZK Require Import Model.Forms10 Proofs.Forms10 Model.Forms9 Proofs.Forms9 Model.C12o Proofs.C12o Lib.Bytes Gen.Tables Model.Tsx Model.C07 Proofs.C05 Proofs.C07.
 Import ListNotations.
 Open Scope N_scope.
 
@@ -83,3 +83,13 @@ Proof. exact ack_via_here. Qed.
 
 Theorem C07_ack_via_rebuilt_refuted : forall (A : Type) (invite_via from_transport : A), invite_via <> from_transport -> ack_via_form false invite_via from_transport <> invite_via.
 Proof. exact ack_via_rebuilt. Qed.
+
+(* "for every 3xx-6xx final response": every final that is not a 2xx - 6xx and codes beyond 699 included - takes the ACK arm *)
+Theorem C07_non2xx_arm_guard : non2xx_arm_catches_all = true.
+Proof. reflexivity. Qed.
+
+Theorem C07_every_non2xx_final_acked : non2xx_arm_catches_all = true -> forall c, c <> F2 -> acked c = true.
+Proof. exact acked_here. Qed.
+
+Theorem C07_listed_classes_refuted : acked_form false F6 = false /\ acked_form false FExt = false.
+Proof. exact acked_listed_misses_6xx. Qed.
